@@ -172,6 +172,7 @@ def run(ctx):
                   "block-scalar headers are also written by %s, outside the control-character guard" % sorted(hdr - {C12.SER_STR}), config, ctx.where(nt))
         fb = {f.npath for f in fx.fns.values() for b, t in f.calls() if fx.callee(t).endswith("::write_folded_block") and f.name != "write_folded_block"}
         ctx.check(fb == {C12.SER_STR}, "BLOCK", "C20:BLOCK:single-body-writer", "folded bodies are written only from serialize_str", "write_folded_block is also called from %s" % sorted(fb - {C12.SER_STR}), config, ctx.where(nt))
+        rule_flow_keys(ctx, fx, config)
 
 
 def _chars(sym):
@@ -186,3 +187,43 @@ def _chars(sym):
                 if isinstance(y, tuple):
                     out.extend(_chars(y))
     return out
+
+
+def rule_flow_keys(ctx, fx, config):
+    """FLOW-KEY: a key written between the braces of a flow mapping is quoted by the *flow* rules (`,` `[` `]` `{` `}` are
+    structural there).  Either the key sink always asks for flow safety, or the flag it is given is true at every call
+    site on the flow edge of MapSer::serialize_key (the serializer's in_flow counter is still 0 while the keys of the
+    outermost flow mapping are written, so it is not an acceptable source)."""
+    ks = fx.fn("<&mut ser::KeyScalarSink as serde::Serializer>::serialize_str")
+    ctx.saw(ks)
+    calls = [(b, t) for b, t in ks.calls() if fx.callee(t) == "ser_quoting::is_plain_value_safe"]
+    if not ctx.check(len(calls) == 1, "FLOW-KEY", "C20:FLOW-KEY:sink:consults", "the key sink consults is_plain_value_safe", "the key sink no longer consults is_plain_value_safe (%d calls)" % len(calls), config, ctx.where(ks)):
+        return
+    b, t = calls[0]
+    flag = ks.sym_operand(t["args"][2])
+    if flag == ("const", True, "bool"):
+        ctx.ok("FLOW-KEY", "C20:FLOW-KEY:sink:flow-safe", "keys are always tested with the flow rules (in_flow = true)", config, ctx.where(ks, b))
+        return
+    r = render(flag)
+    # the flag is a field of the sink: find which parameter of scalar_key_to_string fills it, then inspect the flow-edge call site
+    mk = fx.fn("ser::scalar_key_to_string")
+    param = None
+    for ab, i, adt, var, fl, ops, s_ in aggregates(mk):
+        if adt.endswith("KeyScalarSink"):
+            for fld, op in zip(fl, ops):
+                if r.endswith("." + fld) and op[0] == "local" and op[1] <= mk.d["nargs"]:
+                    param = op[1] - 1
+    sk = fx.fn("<ser::MapSer as serde::ser::SerializeMap>::serialize_key")
+    ctx.saw(sk)
+    okf = False
+    detail = "flag `%s`" % r
+    if param is not None:
+        for sb, sym, tt, ff in bool_switches(sk):
+            if render(sym) == "self.flow":
+                for cb, ct in sk.calls():
+                    if fx.callee(ct) == mk.npath and sk.edge_dominates(sb, tt, cb):
+                        a = sk.sym_operand(ct["args"][param])
+                        detail = "flow-edge call passes `%s`" % render(a)
+                        okf = a == ("const", True, "bool") or render(a) == "self.flow"
+    ctx.check(okf, "FLOW-KEY", "C20:FLOW-KEY:sink:flow-safe", "on the flow edge the key sink is told it is in flow context",
+              "keys of a flow mapping are not guaranteed to be quoted by the flow rules (%s): FlowMap({\"a, b\": 1}) is written as `{a, b: 1}` and reads back as different data" % detail, config, ctx.where(ks, b))
